@@ -1,2 +1,38 @@
-import Spydr.Xform.ModelFlatten
-import Spydr.Xform.Spec
+/-
+  C09 — flatten removes all hierarchy and preserves leaf-level connectivity.
+
+  Model: `flatten : Nat → Design → FResult` (ModelFlatten.lean), fuel-bounded transcription of
+  spydrnet/flatten.py.
+  Spec:  `LeavesOf`, `ConnU`, `UEndpoint` (SpecFlat.lean), `WF`, `IdsUnique`, `Unique`, `Acyclic`,
+         `Named`, `Flat` (Spec.lean).
+
+  Hypotheses (`Hyp d`): `WF d`, `IdsUnique d` (instance / cable identifiers are netlist-wide object
+  identities), `Unique d` (the netlist is uniquified), `Acyclic d`, `Named d` (instances and cables have
+  non-empty names without '/'); all decidable and evaluated by the driver / harness on every input,
+  except `Acyclic` and `Unique`, which the harness checks on the live netlist.
+  `(flatten fuel d).finished`: the work list ran empty (reported by the driver, checked by the
+  harness for fuel = number of instances + 5).
+-/
+import Spydr.Xform.LemmasFlatLeaves
+
+namespace Spydr.Xform
+
+/-- After flatten the top definition holds exactly one instance per leaf occurrence of the original
+    design, named by the slash-joined instance path, with the same leaf definition and data; no
+    hierarchical instance remains (`LeavesOf.flat`), no identifier occurs twice.  Together with
+    `path_unique` (a leaf occurrence is determined by the identifier of its instance) this is a
+    bijection between the leaf occurrences of `d` and the children of the flattened top. -/
+theorem flatten_leaves (fuel : Nat) (d : Design) (hyp : Hyp d) (hfin : (flatten fuel d).finished = true) :
+    LeavesOf d (flatten fuel d).design := by
+  obtain ⟨moved, inv⟩ := fLoop_invA hyp fuel (fInit d) [] (FInvA.init hyp)
+  have hq : (fLoop fuel (fInit d)).queue = [] := by simpa [flatten] using hfin
+  exact inv.leavesOf hyp hq
+
+/-- a leaf occurrence is determined by the identifier of the instance it ends in -/
+theorem leaf_occurrence_unique (d : Design) (hyp : Hyp d) {cs cs' : List Inst} {c c' : Inst}
+    (h : LeafOcc d cs c) (h' : LeafOcc d cs' c') (hid : c.id = c'.id) : cs = cs' ∧ c = c' := by
+  obtain ⟨p, hp, _⟩ := h
+  obtain ⟨p', hp', _⟩ := h'
+  exact path_unique hyp hp hp' hid
+
+end Spydr.Xform
